@@ -55,10 +55,13 @@ type vC14PdScn struct {
 	Actions  int
 	Interval time.Duration
 	FailDS   bool // the providers' datastore refuses every write from the moment Close is called
+	// WanOnly (with FailDS): the two providers have separate datastores and only the WAN provider's refuses writes, so
+	// its Close fails at once while the LAN provider's Close does its work; Close of the wrapper returns after BOTH.
+	WanOnly bool
 }
 
 func (s vC14PdScn) String() string {
-	return fmt.Sprintf("N=%d external-keystore=%v actions=%d interval=%v failing-datastore-at-close=%v", s.N, s.ExtKs, s.Actions, s.Interval, s.FailDS)
+	return fmt.Sprintf("N=%d external-keystore=%v actions=%d interval=%v failing-datastore-at-close=%v wan-only=%v", s.N, s.ExtKs, s.Actions, s.Interval, s.FailDS, s.WanOnly)
 }
 
 type vC14PdRes struct {
@@ -174,6 +177,9 @@ func vC14PdRunInBubble(t *testing.T, c *vh.Case, sc vC14PdScn, target int) *vC14
 	// that refuses writes their Close returns an error. Whatever the inner Close calls return, the wrapper must
 	// still release what it created itself (the internal keystore's worker).
 	var dsFailing atomic.Bool
+	var lanStore *vjds.Store
+	var lanLenAtReturn atomic.Int64
+	lanLenAtReturn.Store(-1)
 	if sc.FailDS {
 		store := vjds.New()
 		store.J.Hook = func(e *vjds.Entry) error {
@@ -186,7 +192,13 @@ func vC14PdRunInBubble(t *testing.T, c *vh.Case, sc vC14PdScn, target int) *vC14
 			runtime.Gosched() // the providers call their store under their own locks: never a virtual wait here
 			return nil
 		}
-		opts = append(opts, WithDatastore(store))
+		if sc.WanOnly {
+			lanStore = vjds.New()
+			lanStore.J.Hook = func(e *vjds.Entry) error { runtime.Gosched(); return nil }
+			opts = append(opts, WithDatastoreWAN(store), WithDatastoreLAN(lanStore))
+		} else {
+			opts = append(opts, WithDatastore(store))
+		}
 	}
 	p, err := New(d, opts...)
 	if err != nil {
@@ -291,6 +303,9 @@ func vC14PdRunInBubble(t *testing.T, c *vh.Case, sc vC14PdScn, target int) *vC14
 				ret <- pvs
 			}()
 			p.Close()
+			if lanStore != nil && lanLenAtReturn.Load() < 0 {
+				lanLenAtReturn.Store(int64(lanStore.J.Len())) // sampled on Close's own goroutine, the instant it returns
+			}
 		}()
 		tm := time.NewTimer(vC14PdCloseHang)
 		defer tm.Stop()
@@ -313,6 +328,11 @@ func vC14PdRunInBubble(t *testing.T, c *vh.Case, sc vC14PdScn, target int) *vC14
 	res.CloseTook = took
 	c.Check(took <= vC14PdCloseBound, "close-returns-in-bound", "%sClose took %v (bound %v) (%s; closed at event #%d %q, %d RPCs in flight)", tag, took, vC14PdCloseBound, sc, res.CloseIdx, res.CloseLabel, res.InFlight)
 	synctest.Wait()
+	if lanStore != nil {
+		grown := int64(lanStore.J.Len()) - lanLenAtReturn.Load()
+		c.Check(grown == 0, "no-datastore-access-after-close", "%sthe LAN provider accessed its datastore %d times after Close of the wrapper had returned (the WAN provider's Close had failed: its datastore refuses writes) (%s; closed at event #%d %q)", tag, grown, sc, res.CloseIdx, res.CloseLabel)
+		c.Obs("closes_with_only_the_wan_datastore_failing", 1)
+	}
 	cA := vC14PdOwned()
 	if sc.ExtKs {
 		cA = vC14PdNotKeystore(cA)
@@ -360,11 +380,14 @@ func vC14PdRunInBubble(t *testing.T, c *vh.Case, sc vC14PdScn, target int) *vC14
 func TestVerif_C14_provider_dual(t *testing.T) {
 	vh.Run(t, vh.Spec{Prop: "C14", Unit: "provider_dual", Quick: 16, Thorough: 500, CostMs: 350,
 		Rule:    "PRNG provider/dual.SweepingProvider over a dual.DHT on one fake host (10-40 simulated peers half public / half private, 16% failing, RPC latency 3-200 ms; internal or external keystore; reprovide interval 2 min or 1 h; with an internal keystore every other case gives the providers a datastore that refuses all writes once Close is called, so that their Close returns an error) with 2-6 StartProviding/ProvideOnce/StopProviding/Clear/RefreshSchedule calls; boundary events (wire log, API calls) counted after the providers' initial probes; reference run closes after everything, re-runs Close at 2 events on a provider goroutine's stack and 2 PRNG indices (thorough: up to 48); non-trivial = Close with RPCs in flight",
-		Clauses: []string{"baseline-clean", "close-returns-in-bound", "no-goroutine-after-close", "close-again-returns", "api-no-panic", "dht-left-running", "no-goroutine-after-2min"}},
+		Clauses: []string{"baseline-clean", "close-returns-in-bound", "no-goroutine-after-close", "close-again-returns", "api-no-panic", "dht-left-running", "no-goroutine-after-2min", "no-datastore-access-after-close"}},
 		func(c *vh.Case) {
 			r := c.R
 			sc := vC14PdScn{Seed: r.Int63(), N: 10 + r.Intn(31), ExtKs: r.Intn(2) == 0, Actions: 2 + r.Intn(5), Interval: []time.Duration{2 * time.Minute, time.Hour}[r.Intn(2)]}
 			sc.FailDS = !sc.ExtKs && c.Idx%2 == 1 // no PRNG draw: the other cases stay as they were
+			if c.Idx%4 == 3 {
+				sc.ExtKs, sc.FailDS, sc.WanOnly = false, true, true
+			}
 			c.Set("scenario", sc.String())
 			c.Set("seed", sc.Seed)
 			ref := vC14PdRun(t, c, sc, 0)
